@@ -69,7 +69,25 @@ def _restore_globals(snap):
 def build_template(spec):
     import dill
     config = cfg.load(spec.ini, spec.overrides, spec.start)
-    med = cfg.build(config, spec.start, spec.seed)
+    if spec.info.get("debug_logging"):
+        # the run as `run.py -vv` builds it: every component caches "debug logging is on" at construction and then takes
+        # its debug branches (which must only log).  The records themselves go nowhere.
+        import logging
+        lg = logging.getLogger("jellyfysh")
+        old_level, old_prop = lg.level, lg.propagate
+        if not any(isinstance(h, logging.NullHandler) for h in lg.handlers):
+            lg.addHandler(logging.NullHandler())
+        logging.disable(logging.NOTSET)
+        lg.setLevel(logging.DEBUG)
+        lg.propagate = False
+        try:
+            med = cfg.build(config, spec.start, spec.seed)
+        finally:
+            lg.setLevel(old_level)
+            lg.propagate = old_prop
+            logging.disable(logging.WARNING)
+    else:
+        med = cfg.build(config, spec.start, spec.seed)
     return dill.dumps({"med": med, "globals": _capture_globals()})
 
 
